@@ -2,6 +2,7 @@ package csrf
 
 import (
 	"errors"
+	"fmt"
 	"net/url"
 	"reflect"
 	"strings"
@@ -155,8 +156,11 @@ func New(config ...Config) fiber.Handler {
 				return cfg.ErrorHandler(c, ErrTokenNotFound)
 			}
 			if cfg.SingleUseToken {
-				// If token is single use, delete it from storage
-				deleteTokenFromStorage(c, extractedToken, cfg, sessionManager, storageManager)
+				// If token is single use, delete it from storage; a token that cannot be deleted stays usable,
+				// so the request is rejected like any other store failure
+				if err := deleteTokenFromStorage(c, extractedToken, cfg, sessionManager, storageManager); err != nil {
+					return cfg.ErrorHandler(c, fmt.Errorf("csrf: failed to delete single use token: %w", err))
+				}
 			} else {
 				token = extractedToken // Token is valid, safe to set it
 			}
@@ -223,12 +227,12 @@ func createOrExtendTokenInStorage(c fiber.Ctx, token string, cfg Config, session
 	}
 }
 
-func deleteTokenFromStorage(c fiber.Ctx, token string, cfg Config, sessionManager *sessionManager, storageManager *storageManager) {
+func deleteTokenFromStorage(c fiber.Ctx, token string, cfg Config, sessionManager *sessionManager, storageManager *storageManager) error {
 	if cfg.Session != nil {
 		sessionManager.delRaw(c)
-	} else {
-		storageManager.delRaw(token)
+		return nil
 	}
+	return storageManager.delRaw(token)
 }
 
 // Update CSRF cookie
@@ -267,7 +271,9 @@ func (handler *Handler) DeleteToken(c fiber.Ctx) error {
 		return handler.config.ErrorHandler(c, ErrTokenNotFound)
 	}
 	// Remove the token from storage
-	deleteTokenFromStorage(c, cookieToken, handler.config, handler.sessionManager, handler.storageManager)
+	if err := deleteTokenFromStorage(c, cookieToken, handler.config, handler.sessionManager, handler.storageManager); err != nil {
+		return fmt.Errorf("csrf: failed to delete token: %w", err)
+	}
 	// Expire the cookie
 	expireCSRFCookie(c, handler.config)
 	return nil
